@@ -246,9 +246,136 @@ pub fn run(tier: Tier) -> i32 {
         }
     }
     generated(&report, if tier.thorough() { 3 } else { 2 });
+    zoo(&report, if tier.thorough() { 4 } else { 3 });
     let s = &sets[0];
     report.sample(json!({"set": s.name, "templates": s.templates, "partials": s.partials, "data": s.datas.iter().map(|d| d.to_json()).collect::<Vec<_>>(), "history": [[0,0],[1,1],[0,0]]}));
     report.finish()
+}
+
+
+/// Construct zoo: every tag/block with every argument position *dynamic*, and every registered
+/// filter with variable input and arguments, each rendered along all histories (length <= k) of
+/// five data objects that drive it differently (other window, other arm, other partial name, other
+/// filter operand, type-confused operands).  Oracle: each call equals the same call on a freshly
+/// built parser.  This is where state memoised inside a renderable or filter instance (an argument
+/// evaluated once, a remembered arm, a cached partial, a leftover buffer) becomes visible.
+fn zoo(report: &Report, k: u32) {
+    use liquid::reflection::ParserReflection;
+    let partials: Vec<(String, String)> = vec![("p1".into(), "[p1 {{ x }}{% cycle 'u', 'v' %}]".into()), ("p2".into(), "[p2 {{ x }}{% increment q %}{% ifchanged %}{{ x }}{% endifchanged %}]".into())];
+    let mut templates: Vec<String> = [
+        "{% for i in a limit: n offset: m %}{{ i }}{% else %}E{% endfor %}",
+        "{% for i in (m..n) reversed %}{{ i }}{% else %}E{% endfor %}|{% for i in (n..m) limit: n %}{{ i }}{% endfor %}",
+        "{% tablerow i in a cols: n limit: m %}{{ i }}{% endtablerow %}|{% tablerow i in a offset: n %}{{ i }}{% endtablerow %}",
+        "{% case t %}{% when 1 %}one{% when 1, 2 %}low{% when s %}S{% when n or m %}NM{% else %}E{% endcase %}",
+        "{% if t == n %}eq{% elsif t > n %}gt{% elsif s contains 'a' %}ca{% elsif a contains t %}at{% else %}E{% endif %}",
+        "{% unless t %}U{% else %}E{% endunless %}{% if t and n or m %}X{% endif %}",
+        "{% include nm %}|{% include nm x: t %}",
+        "{% render nm, x: t %}|{% render nm with t as x %}",
+        "{% render nm for a as x %}",
+        "{% cycle s: 'a', 'b' %}{% cycle s: 'a', 'b' %}|{% cycle t, n, m %}{% cycle t, n, m %}",
+        "{% assign v = s | append: s %}{{ v }}{% capture c %}{{ t }}{% endcapture %}{{ c }}",
+        "{% increment n %}{% decrement n %}{{ n }}{% increment zz %}",
+        "{% ifchanged %}{{ t }}{% endifchanged %}{% ifchanged %}{{ t }}{% endifchanged %}{% for i in a %}{% ifchanged %}{{ t }}{% endifchanged %}{% endfor %}",
+        "{{ a[n] }}|{{ a.first }}|{{ a.size }}",
+        "{{ o[s] }}|{{ o.k }}",
+        "{{ o[s][t] }}",
+        "{% for i in a %}{% for j in a limit: n %}{{ forloop.parentloop.index }}{{ j }}{% if j == t %}{% break %}{% endif %}{% endfor %}{% if i == t %}{% continue %}{% endif %}.{% endfor %}",
+        "{% comment %}{{ t }}{% endcomment %}{% raw %}{{ t }}{% endraw %}{{ t }}",
+        "{% for i in (1..2) %}{% case t %}{% when i %}hit{{ i }}{% when 1, 2 %}low{% else %}E{% endcase %}{% include nm x: i %}{% endfor %}",
+    ]
+    .iter()
+    .map(|s| s.to_string())
+    .collect();
+    let parser0 = cfgs::parser(Config::Full);
+    let mut filters: Vec<String> = parser0.filters().map(|f| f.name().to_string()).filter(|n| n != "dump").collect();
+    filters.sort();
+    for f in &filters {
+        templates.push(format!("{{{{ s | {f} }}}}|{{{{ a | {f} }}}}|{{{{ n | {f} }}}}"));
+        templates.push(format!("{{{{ s | {f}: n }}}}|{{{{ s | {f}: s2 }}}}|{{{{ a | {f}: s }}}}|{{{{ n | {f}: m }}}}|{{{{ ts | {f}: f }}}}"));
+        templates.push(format!("{{{{ s | {f}: n, m }}}}|{{{{ s | {f}: s2, s }}}}|{{{{ a | {f}: s, t }}}}|{{{{ s | {f}: m, s2 }}}}"));
+    }
+    let o = |pairs: &[(&str, V)]| V::obj(pairs);
+    let datas: Vec<V> = vec![
+        o(&[("a", V::Arr(vec![V::Int(1), V::Int(2), V::Int(3)])), ("n", V::Int(1)), ("m", V::Int(2)), ("s", V::s("a,b")), ("s2", V::s(",")), ("t", V::Int(1)), ("nm", V::s("p1")), ("f", V::s("%Y")), ("o", o(&[("k", V::Int(1)), ("a,b", o(&[("1", V::s("deep"))]))])), ("ts", V::s("2020-02-29 12:00:00 +0000"))]),
+        o(&[("a", V::Arr(vec![V::s("x"), V::s("y")])), ("n", V::Int(2)), ("m", V::Int(0)), ("s", V::s("x")), ("s2", V::s("x")), ("t", V::Int(2)), ("nm", V::s("p2")), ("f", V::s("%j")), ("o", o(&[("k", V::s("v")), ("x", o(&[("2", V::Int(3))]))])), ("ts", V::DateTime("1999-12-31 23:59:59 -0330".into()))]),
+        o(&[("a", V::Arr(vec![])), ("n", V::Int(0)), ("m", V::Int(5)), ("s", V::s("")), ("s2", V::s("")), ("t", V::Nil), ("nm", V::s("missing")), ("f", V::s("%")), ("o", V::Obj(vec![])), ("ts", V::s("nope"))]),
+        o(&[("a", V::Arr(vec![o(&[("x", V::Int(1))]), o(&[("x", V::Int(2))]), o(&[("y", V::Int(3))])])), ("n", V::Int(3)), ("m", V::Int(1)), ("s", V::s("x")), ("s2", V::s("b")), ("t", V::s("x")), ("nm", V::s("p1")), ("f", V::s("%H:%M")), ("o", o(&[("x", o(&[("x", V::Int(1))]))])), ("ts", V::Int(0))]),
+        o(&[("a", V::s("str")), ("n", V::s("2")), ("m", V::Int(-1)), ("s", V::Int(5)), ("s2", V::Nil), ("t", V::Arr(vec![V::Int(1)])), ("nm", V::Int(7)), ("f", V::Nil), ("o", V::Arr(vec![V::Int(1)])), ("ts", V::Nil)]),
+    ];
+    let globals: Vec<liquid::Object> = datas.iter().map(|d| d.to_object()).collect();
+    let nd = datas.len() as u64;
+    let hist_per_t = seq_count(nd, k) - 1; // non-empty histories
+    for policy in [Policy::Eager, Policy::Lazy] {
+        // baseline: every (template, data) on its own freshly built parser, twice
+        let baseline: Vec<Vec<Outcome>> = templates
+            .iter()
+            .map(|t| {
+                (0..datas.len())
+                    .map(|di| {
+                        let one = || {
+                            let p = cfgs::build(Config::Full, policy, &partials).expect("parser builds");
+                            match cfgs::parse_guarded(&p, t) {
+                                Ok(Ok(tt)) => render_once(&tt, &globals[di]),
+                                Ok(Err(e)) => Outcome::ParseErr(e),
+                                Err(pi) => Outcome::Panic(pi.describe()),
+                            }
+                        };
+                        let (a, b) = (one(), one());
+                        report.evals(2);
+                        if a != b {
+                            report.violation("C09|baseline-not-deterministic|zoo", 0, json!({"kind":"history","templates":[t],"data":[datas[di].to_json()]}), format!("two fresh parsers disagree: {} vs {}", a.short(), b.short()));
+                        }
+                        a
+                    })
+                    .collect()
+            })
+            .collect();
+        let shared = cfgs::build(Config::Full, policy, &partials).expect("parser builds");
+        let total = templates.len() as u64 * hist_per_t;
+        let name = format!("construct zoo / {policy:?} / histories k<={k}");
+        let calls = AtomicU64::new(0);
+        let nontriv = AtomicU64::new(0);
+        par_range(
+            report,
+            &name,
+            total,
+            |i| {
+                let (ti, hi) = ((i / hist_per_t) as usize, i % hist_per_t + 1);
+                let hist = seq_decode(hi, nd, k);
+                // templates that do not parse (a filter used with the wrong arity) have nothing to re-execute
+                let Ok(Ok(t)) = cfgs::parse_guarded(&shared, &templates[ti]) else { return };
+                if hist.len() > 1 {
+                    nontriv.fetch_add(1, Ordering::Relaxed);
+                }
+                for (step, di) in hist.iter().enumerate() {
+                    let got = render_once(&t, &globals[*di as usize]);
+                    report.eval();
+                    calls.fetch_add(1, Ordering::Relaxed);
+                    let want = &baseline[ti][*di as usize];
+                    if got != *want {
+                        report.violation(
+                            "C09|result-depends-on-history|zoo",
+                            i,
+                            json!({"kind":"history","set":"zoo","policy":format!("{policy:?}"),"partials":partials,"templates":[templates[ti]],"data":datas.iter().map(|d| d.to_json()).collect::<Vec<_>>(),"history":hist[..=step].iter().map(|d| json!([0, d])).collect::<Vec<_>>(),"expected":want.to_json(),"actual":got.to_json()}),
+                            format!("{} : call #{} of history {:?} (data indices) returned {} but a fresh parser returns {}", templates[ti], step + 1, hist, got.short(), want.short()),
+                        );
+                        return;
+                    }
+                }
+            },
+            |i| json!({"kind":"history","templates":[templates[(i / hist_per_t) as usize]]}),
+        );
+        for row in baseline.iter().step_by(7) {
+            for oc in row {
+                report.outcome(&oc.short());
+            }
+        }
+        report.states.fetch_add(total, Ordering::Relaxed);
+        report.transitions.fetch_add(calls.load(Ordering::Relaxed), Ordering::Relaxed);
+        report.traces.fetch_add(calls.load(Ordering::Relaxed), Ordering::Relaxed);
+        report.nontrivial.fetch_add(nontriv.load(Ordering::Relaxed), Ordering::Relaxed);
+        report.family(FamilyStat { name, cases: total, nontrivial: nontriv.load(Ordering::Relaxed), skipped: 0, note: format!("{} templates ({} constructs with dynamic arguments + {} registered filters x 3 arities) x all histories of <= {k} of {} data objects on one parsed template; render calls={}", templates.len(), templates.len() - 3 * filters.len(), filters.len(), datas.len(), calls.load(Ordering::Relaxed)) });
+    }
 }
 
 /// Every generated C08 scenario, rendered d0,d1,d0,d1 on one parser per policy:
